@@ -701,6 +701,9 @@ Proof.
   cbn [user_calls_with]. rewrite (run_rule_denote_with bf1 bf2 ad c g H), (IH (S i) g H). reflexivity.
 Qed.
 
+Lemma forallb_map_comp : forall {A B} (f : B -> bool) (h : A -> B) l, forallb f (map h l) = forallb (fun x => f (h x)) l.
+Proof. intros A B f h l. induction l as [|a l IH]; [reflexivity|]. simpl. rewrite IH. reflexivity. Qed.
+
 Theorem check_case_spec : forall g runs,
   check_case (g, runs) = [forallb (fun r => fst (check_run g r)) runs; forallb (fun r => snd (check_run g r)) runs].
 Proof.
@@ -710,7 +713,7 @@ Proof.
     rewrite (verify_denote_with (table_fn (builtin_table g)) builtin_fn ad rf rules g (table_fn_eq g)).
     rewrite (user_calls_denote_with (table_fn (builtin_table g)) builtin_fn ad rules 0 g (table_fn_eq g)).
     reflexivity. }
-  rewrite (map_ext _ _ E). rewrite !forallb_map. reflexivity.
+  rewrite (map_ext _ _ E). rewrite !forallb_map_comp. reflexivity.
 Qed.
 
 (* the user_calls of the concrete rule language are the observable part of `calls` *)
